@@ -141,7 +141,12 @@ def _not_reserved(s):
     return s != "?"
 
 # short strings over letters and the characters the property names; never '' and never exactly '?'
-_TRICKY = st.text(alphabet=st.sampled_from(list(LETTERS) + SPECIAL + SPECIAL[:10]), min_size=1, max_size=6).filter(_not_reserved)
+# runs of 1-3 back-slashes directly followed by a quote character (both kinds) and then a delimiter-like character or the end
+# of the token: Weka writes a\',b as 'a\\\\\',b' - an odd run of back-slashes in front of a quote that is *not* the closing one
+BS_QUOTE = [bs + q + d for bs in ("\\", "\\\\", "\\\\\\") for q in ("'", '"') for d in (",", " ", "}", "{", "")]
+_CHARS = st.sampled_from(list(LETTERS) + SPECIAL + SPECIAL[:10])
+_PIECES = st.one_of(_CHARS, _CHARS, _CHARS, _CHARS, _CHARS, st.sampled_from(BS_QUOTE))
+_TRICKY = st.lists(_PIECES, min_size=1, max_size=6).map("".join).filter(_not_reserved)
 _PLAIN = st.text(alphabet=st.sampled_from(list(LETTERS + "_-.")), min_size=1, max_size=5)
 
 def tricky_text():
@@ -365,6 +370,11 @@ def byte_cases(draw, tier):
         case["chunks"] = sorted(draw(st.sets(st.integers(1, 40), min_size=3, max_size=8)))
     return case
 
+# file names (relative to a fresh temp dir): plain, gzip by extension, and shapes on which an "ends with .gz" and a "contains .gz"
+# rule disagree (incl. a directory component with .gz) - the round trip must hold whatever coba classifies them as
+DISK_NAMES = ["lines.txt", "lines.txt.gz", "lines.txt", "lines.txt.gz", "packed.gz.part", "packed.gz.1", "runs.gz.d/result.log",
+              "runs.gz.d/result.log.gz", "a.gzip", "x.GZ", "data.tgz", "log.gz.txt"]
+
 @st.composite
 def disk_cases(draw, tier):
     alphabet = BYTE_ALPHABET + ["\t", "\x0b", "\x0c", "\x1c", "\x85", "\u2028", "'", '"', "\\", "{", "%"]
@@ -376,5 +386,6 @@ def disk_cases(draw, tier):
             writes.append(draw(line))                       # write(str)
         else:
             writes.append(draw(st.lists(line, max_size=6)))  # write(list of str)
-    return {"writes": writes, "gz": draw(st.booleans()), "batch": draw(st.sampled_from([None, None, 1, 2, 3])),
+    name = draw(st.sampled_from(DISK_NAMES))
+    return {"writes": writes, "name": name, "gz": name.endswith(".gz"), "batch": draw(st.sampled_from([None, None, 1, 2, 3])),
             "reuse_sink": draw(st.booleans()), "include_loc": draw(st.integers(0, 3)) == 0}
